@@ -224,9 +224,27 @@ Proof.
   destruct (opt_unp _ (x_sc x) _); [discriminate | now inv H].
 Qed.
 
+(* what exactness of one request needs: every value the server will NOT transmit (believed
+   identical) is held by the worker with the supplied content *)
+Definition fresh_ok (b : srv) (r : wrk) (db us gs rc dc sc : N) : Prop :=
+  (forall pd, find db (b_dbs b) = Some pd ->
+     exists d, find db (w_dbs r) = Some d /\
+       (p_us pd = us -> d_us d = cont us) /\ (p_rc pd = rc -> d_rc d = cont rc) /\
+       (p_dc pd = dc -> d_dc d = cont dc)) /\
+  (b_gs b = gs -> w_gs r = cont gs) /\ (b_sc b = sc -> w_sc r = cont sc).
+
+Lemma in_sync_fresh : forall b r db us gs rc dc sc, in_sync b r -> fresh_ok b r db us gs rc dc sc.
+Proof.
+  intros b r db us gs rc dc sc (Sdb & Sg & Ss & _). split; [|split].
+  - intros pd Hp. eexists; split; [apply (Sdb _ _ Hp)|]. cbn.
+    repeat split; intros <-; reflexivity.
+  - intros <-; exact Sg.
+  - intros <-; exact Ss.
+Qed.
+
 Section CompileClean.
 Variables (b : srv) (r : wrk) (db us gs rc dc sc : N) (f : fault) (x u : wire).
-Hypothesis Hsync : in_sync b r.
+Hypothesis Hfresh : fresh_ok b r db us gs rc dc sc.
 Hypothesis Tus : nn us = true.
 Hypothesis Tgs : nn gs = true.
 Hypothesis Trc : nn rc = true.
@@ -246,27 +264,27 @@ Proof.
   destruct (preargs_wire _ _ _ _ _ _ _ _ _ Ep) as (Wu & Wr & Wg & Wd & Ws).
   pose proof (nn_spec _ Tus) as Nu. pose proof (nn_spec _ Tgs) as Ng.
   destruct (preargs_unsent _ _ _ _ _ _ _ _ _ Ep Nu Ng) as (Uu & Ur & Ud & Ug & Us).
-  destruct Hsync as (Sdb & Sg & Ss & _).
+  destruct Hfresh as (Sdb & Sg & Ss).
   repeat split; auto.
   - destruct d as [a c e]; cbn in *. f_equal.
     + destruct (x_us x) as [v|] eqn:Ev.
       * rewrite (Hu1 v eq_refl). now rewrite (Wu v eq_refl).
-      * destruct (Uu eq_refl) as (pd & Hp & <-). specialize (Sdb _ _ Hp).
-        destruct (Hold _ Sdb) as (Ho & _ & _). now rewrite (Ho eq_refl).
+      * destruct (Uu eq_refl) as (pd & Hp & Hpu). destruct (Sdb _ Hp) as (d0 & Hd0 & Fu & _ & _).
+        destruct (Hold _ Hd0) as (Ho & _ & _). rewrite (Ho eq_refl). now apply Fu.
     + destruct (x_rc x) as [v|] eqn:Ev.
       * rewrite (Hr1 v eq_refl). now rewrite (Wr v eq_refl).
-      * destruct (Ur eq_refl) as (pd & Hp & <-). specialize (Sdb _ _ Hp).
-        destruct (Hold _ Sdb) as (_ & Ho & _). now rewrite (Ho eq_refl).
+      * destruct (Ur eq_refl) as (pd & Hp & Hpu). destruct (Sdb _ Hp) as (d0 & Hd0 & _ & Fr & _).
+        destruct (Hold _ Hd0) as (_ & Ho & _). rewrite (Ho eq_refl). now apply Fr.
     + destruct (x_dc x) as [v|] eqn:Ev.
       * rewrite (Hd1 v eq_refl). now rewrite (Wd v eq_refl).
-      * destruct (Ud eq_refl) as (pd & Hp & <-). specialize (Sdb _ _ Hp).
-        destruct (Hold _ Sdb) as (_ & _ & Ho). now rewrite (Ho eq_refl).
+      * destruct (Ud eq_refl) as (pd & Hp & Hpu). destruct (Sdb _ Hp) as (d0 & Hd0 & _ & _ & Fd).
+        destruct (Hold _ Hd0) as (_ & _ & Ho). rewrite (Ho eq_refl). now apply Fd.
   - destruct (x_gs x) as [v|] eqn:Ev.
     + rewrite (Hg1 v eq_refl). now rewrite (Wg v eq_refl).
-    + rewrite (Hg2 eq_refl), Sg. now rewrite (Ug eq_refl).
+    + rewrite (Hg2 eq_refl). apply Sg. now apply Ug.
   - destruct (x_sc x) as [v|] eqn:Ev.
     + rewrite (Hs1 v eq_refl). now rewrite (Ws v eq_refl).
-    + rewrite (Hs2 eq_refl), Ss. now rewrite (Us eq_refl).
+    + rewrite (Hs2 eq_refl). apply Ss. now apply Us.
 Qed.
 
 
@@ -275,6 +293,7 @@ Lemma cc_ack : exists b1, ack b db u = Some b1 /\
   (forall db', db' <> db -> find db' (b_dbs b1) = find db' (b_dbs b)) /\
   b_gs b1 = gs /\ b_sc b1 = sc /\ b_last b1 = b_last b.
 Proof.
+  clear Hfresh.
   pose proof (nn_spec _ Tus) as Nu. pose proof (nn_spec _ Tgs) as Ng.
   pose proof (nn_spec _ Trc) as Nr. pose proof (nn_spec _ Tdc) as Nd.
   pose proof (nn_spec _ Tsc) as Ns.
@@ -346,7 +365,7 @@ Proof.
             d = mkD (cont us) (cont rc) (cont dc) /\ w_gs r1 = cont gs /\ w_sc r1 = cont sc /\
             w_last r1 = w_last r /\ find db (w_dbs r1) = Some d /\
             (forall db', db' <> db -> find db' (w_dbs r1) = find db' (w_dbs r)))
-    by (intros r1 d; apply (cc_ok b r db us gs rc dc sc f x0 u Hs Tu Tg Tr Td Ep)).
+    by (intros r1 d; apply (cc_ok b r db us gs rc dc sc f x0 u (in_sync_fresh _ _ _ _ _ _ _ _ Hs) Tu Tg Ep)).
   destruct (cc_ack b db us gs rc dc sc x0 u Tu Tg Tr Td Tc Ep)
     as (b1 & Hack & Hb & Hbo & Hbg & Hbs & Hbl).
   assert (Hbuild : forall r1 d, sync f r db x0 = SOk r1 d -> in_sync b1 r1).
